@@ -49,3 +49,24 @@ Proof. exact send_delay_request_total. Qed.
 Theorem C03_send_announce_total : forall p d q,
   (length (ds_path d) <= 200)%nat -> exists r, send_announce p d q = Ok r.
 Proof. exact send_announce_total. Qed.
+
+(** * The unbounded statement: NO host call sequence reaches a panic site.
+    For every valid set-up (at least one port, every port configuration within
+    the documented ranges) and EVERY sequence of host calls on the instance and
+    its ports - frames of arbitrary octets and length, receive/transmit
+    timestamps in [0, 2^63 ns), timer expirations, any TLV provider queue, BMCA
+    runs and run-time setting changes in any order - initialisation succeeds and
+    every call returns normally.  [SRPanic] covers explicit panics, failed
+    (debug) assertions and arithmetic overflow of every checked operation of
+    the model.  Proved by the instance invariant [inst_inv] (Port/Inv*.v). *)
+From SV Require Import Port.InvRun.
+Theorem C03_no_host_call_sequence_panics : forall s es,
+  setup_valid s -> Forall event_valid es ->
+  exists i o, init s = Ok (i, o) /\ ~ In SRPanic (run i es).
+Proof. exact no_panic_ever. Qed.
+Theorem C03_invariant_inductive : forall i e,
+  inst_inv i -> event_valid e -> exists i' o, step i e = Ok (i', o) /\ step_post i e i'.
+Proof. exact step_ok. Qed.
+Theorem C03_invariant_initial : forall s,
+  setup_valid s -> exists i o, init s = Ok (i, o) /\ inst_inv i /\ no_master (i_ports i).
+Proof. exact init_ok. Qed.
